@@ -63,6 +63,8 @@ type Exec struct {
 	funcs    map[string]bool
 	toUpperMemo map[string]*StrV
 	undo     []func()
+	inflight []bool // one entry per panic being handled by deferred calls; cleared by recover()
+	recovered int
 	paranoid bool
 	paranoidN, paranoidBad int
 	onceDone map[*Obj]bool
@@ -391,6 +393,45 @@ func (ex *Exec) call(fn *ssa.Function, args []Val, env []Val) Val {
 		fr.env[slots[fv]] = env[i]
 	}
 	fr.block = fn.Blocks[0]
+	if fn.Recover != nil {
+		// The function has deferred calls and a recover block. A run-time panic below this frame (a pathEnd of kind
+		// "panic") runs the deferred calls with the panic in flight; if one of them calls recover(), execution
+		// continues in the recover block, which returns the current values of the named results.
+		return ex.runWithRecover(fn, fr)
+	}
+	return ex.runBlocks(fn, fr)
+}
+
+func (ex *Exec) runWithRecover(fn *ssa.Function, fr *frame) (ret Val) {
+	depth := ex.depth
+	defer func() {
+		r := recover()
+		if r == nil {
+			return
+		}
+		pe, ok := r.(pathEnd)
+		if !ok || pe.kind != "panic" || len(fr.defers) == 0 {
+			panic(r)
+		}
+		ex.depth = depth
+		ex.inflight = append(ex.inflight, true)
+		for i := len(fr.defers) - 1; i >= 0; i-- {
+			fr.defers[i]()
+		}
+		fr.defers = nil
+		still := ex.inflight[len(ex.inflight)-1]
+		ex.inflight = ex.inflight[:len(ex.inflight)-1]
+		if still {
+			panic(r) // not recovered: keeps propagating
+		}
+		ex.recovered++
+		fr.prev, fr.block = nil, fn.Recover
+		ret = ex.runBlocks(fn, fr)
+	}()
+	return ex.runBlocks(fn, fr)
+}
+
+func (ex *Exec) runBlocks(fn *ssa.Function, fr *frame) Val {
 	for {
 		for _, in := range fr.block.Instrs {
 			ex.cur = in
@@ -725,6 +766,12 @@ func (ex *Exec) builtin(x *ssa.Call, b *ssa.Builtin, args []Val) Val {
 		return n
 	}
 	switch b.Name() {
+	case "recover":
+		if n := len(ex.inflight); n > 0 && ex.inflight[n-1] {
+			ex.inflight[n-1] = false
+			return strOf("recovered run-time panic")
+		}
+		return nil
 	case "copy":
 		dst := args[0].(*SliceV)
 		var src []Val
@@ -800,6 +847,14 @@ func (ex *Exec) rollback() {
 // ---------- operators
 
 func (ex *Exec) binop(x *ssa.BinOp, a, b Val) Val {
+	if (a == nil || b == nil) && (x.Op == token.EQL || x.Op == token.NEQ) {
+		// interface value compared with nil
+		eq := a == nil && b == nil
+		if x.Op == token.NEQ {
+			eq = !eq
+		}
+		return BoolC(eq)
+	}
 	if sa, ok := a.(*StrV); ok {
 		sb := b.(*StrV)
 		switch x.Op {
@@ -878,6 +933,8 @@ func (ex *Exec) binop(x *ssa.BinOp, a, b Val) Val {
 		return BVBin("bvor", ta, tb)
 	case token.XOR:
 		return BVBin("bvxor", ta, tb)
+	case token.AND_NOT:
+		return BVBin("bvand", ta, BVBin("bvxor", tb, BVC(w, ^uint64(0))))
 	case token.QUO, token.REM:
 		if ex.branch(Cmp("=", tb, BVC(w, 0))) {
 			ex.rtpanic(x, "division by zero")
